@@ -380,7 +380,9 @@ def create_for_folder_subcommand(
         not_found_paths = not_found_paths - found_file_paths
     commit_session(session, author_name, author_email, author_phone, author_role, location, comment)
 
-    exception = test_for_missing_files(not_found_paths, root_path, ignore_spec)
+    exception = test_for_missing_files(
+        not_found_paths, root_path, ignore_spec, existing_history.set_of_directory_paths()
+    )
     if num_failed_verifications > 0:
         exception = errors.VerificationFailedException()
 
@@ -664,7 +666,9 @@ def verify_entire_folder(
 
                 found_single_file = True
 
-    exception = test_for_missing_files(not_found_paths, root_path, ignore_spec)
+    exception = test_for_missing_files(
+        not_found_paths, root_path, ignore_spec, existing_history.set_of_directory_paths()
+    )
 
     if single_file is not None and not found_single_file:
         exception = errors.SingleFileNotFoundException()
@@ -1085,7 +1089,9 @@ def diff_entire_folder_against_full_history_subcommand(root_path, verbose, ignor
                 num_new_files += 1
                 continue
 
-    exception = test_for_missing_files(not_found_paths, root_path, ignore_spec)
+    exception = test_for_missing_files(
+        not_found_paths, root_path, ignore_spec, existing_history.set_of_directory_paths()
+    )
     if num_failed_verifications > 0:
         exception = errors.VerificationFailedException()
     if not exception and num_new_files > 0:
@@ -1447,10 +1453,15 @@ def xsd_schema_check(file_path, directory_file, xsd_file):
         raise errors.VerificationFailedException
 
 
-def test_for_missing_files(not_found_paths, root_path, ignore_spec: MHLIgnoreSpec = MHLIgnoreSpec()):
+def test_for_missing_files(
+    not_found_paths, root_path, ignore_spec: MHLIgnoreSpec = MHLIgnoreSpec(), directory_paths=frozenset()
+):
     ignore_path_spec = ignore_spec.get_path_spec()
     # update to exclude our ignored files
-    not_found_paths = [x for x in not_found_paths if not ignore_path_spec.match_file(x)]
+    # directory patterns like "sub/" only match paths of (recorded) directories, given with a trailing separator
+    not_found_paths = [
+        x for x in not_found_paths if not ignore_path_spec.match_file(x + os.sep if x in directory_paths else x)
+    ]
     if len(not_found_paths) == 0:
         return None
     # test our not_found_paths against our ignore spec to ensure these weren't explicitly ignored.
